@@ -453,7 +453,9 @@ def _worker_inproc(seed):
             probes["budget-flagged"] = probes.get("budget-flagged", 0) + 1
         n2 = max(1, len(data))
         max_ratio = max(max_ratio, res["steps"] / n2)
-        dg = core.digest_of([kind, name if name != "generated" else seed, faults, oc, res["steps"]])
+        # (the exact step count is not part of the digest: androguard's XML printer iterates hash-ordered containers, so the
+        #  number of executed lines varies by a handful with the hash seed and the memory layout; the outcome does not)
+        dg = core.digest_of([kind, name if name != "generated" else seed, faults, oc])
         case_digests.append(dg)
         if _touches(faults, p["consumed"], len(data)):
             nontrivial.append(dg)
